@@ -302,5 +302,7 @@ def run(ctx):
     try:
         from . import c06 as _c06
         _c06.stop_plumbing(ctx, "R05.1")      # the restart mode's signal and grace are the parsed --stop-signal / --stop-timeout
+        from . import c19 as _c19d
+        _c19d.delivery_table(ctx, "R05.1")     # signal mode: the configured signal is the one delivered
     except Skip:
         pass
